@@ -27,6 +27,7 @@ import (
 	"net/http"
 	"sort"
 	"strings"
+	"sync"
 	"testing"
 	"time"
 
@@ -492,6 +493,9 @@ func peerStrict(wire []byte, isResp bool) seen {
 	return s
 }
 
+// fasthttp needs the whole header section in the reader's buffer (long-run values reach 8 KiB).
+var bigReaders = sync.Pool{New: func() any { return bufio.NewReaderSize(nil, 1<<15) }}
+
 func peerFasthttp(wire []byte, isResp bool) (s seen) {
 	s = seen{peer: "fasthttp"}
 	defer func() {
@@ -508,7 +512,9 @@ func peerFasthttp(wire []byte, isResp bool) (s seen) {
 		}
 	}
 	under := bytes.NewReader(wire)
-	br := bufio.NewReaderSize(under, 1<<16)
+	br := bigReaders.Get().(*bufio.Reader)
+	br.Reset(under)
+	defer bigReaders.Put(br)
 	if isResp {
 		var p fasthttp.Response
 		if err := p.Read(br); err != nil {
